@@ -31,7 +31,8 @@ def addBitsLoop (data : Bytes) (startByte startBit : Nat) :
         let mask : UInt8 := if bit then UInt8.ofNat (2 ^ lastBit) else 0
         addBitsLoop data startByte startBit n (b + 1) (buf1.set tgt (old ||| mask)) ((lastBit + 1) % 8)
 
-def WBuf.addBits (w : WBuf) (data : Bytes) (bits : Nat) : Outcome WBuf :=
+/-- `add_bits`, literal transcription: the per-bit loop runs over the whole buffer -/
+def WBuf.addBitsLit (w : WBuf) (data : Bytes) (bits : Nat) : Outcome WBuf :=
   if w.lastBit = 0 then
     let toAppend := (bits + 7) / 8
     if toAppend > data.length then .panic "bs_write: data[..to_append]"
@@ -39,6 +40,25 @@ def WBuf.addBits (w : WBuf) (data : Bytes) (bits : Nat) : Outcome WBuf :=
   else
     if w.buffer.length = 0 then .panic "bs_write: buffer.len() - 1"
     else addBitsLoop data (w.buffer.length - 1) w.lastBit bits 0 w.buffer w.lastBit
+
+def Outcome.mapBuf (init : Bytes) : Outcome WBuf → Outcome WBuf
+  | .ok r => .ok ⟨init ++ r.buffer, r.lastBit⟩
+  | .err e => .err e
+  | .panic s => .panic s
+
+/-- `add_bits` as executed by the model: the loop only ever touches the bytes from `start_byte`
+    on, so it is run on that suffix (equal to `addBitsLit` by `WBuf.addBits_eq_lit`) -/
+def WBuf.addBits (w : WBuf) (data : Bytes) (bits : Nat) : Outcome WBuf :=
+  if w.lastBit = 0 then
+    let toAppend := (bits + 7) / 8
+    if toAppend > data.length then .panic "bs_write: data[..to_append]"
+    else .ok ⟨w.buffer ++ data.take toAppend, bits % 8⟩
+  else
+    if w.buffer.length = 0 then .panic "bs_write: buffer.len() - 1"
+    else
+      let start := w.buffer.length - 1
+      Outcome.mapBuf (w.buffer.take start)
+        (addBitsLoop data 0 w.lastBit bits 0 (w.buffer.drop start) w.lastBit)
 
 def WBuf.addBytes (w : WBuf) (data : Bytes) : Outcome WBuf :=
   if w.lastBit = 0 then .ok ⟨w.buffer ++ data, 0⟩
